@@ -11,7 +11,7 @@ import json, os, re, shutil, subprocess, sys, py_compile, glob
 
 pid, var = sys.argv[1], sys.argv[2]
 run_all = "--all" in sys.argv
-src = "/tmp/seed_out/%s" % pid
+src = "%s/%s" % (os.environ.get("SEED_OUT", "/tmp/seed_out"), pid)
 wt = "/tmp/conf_%s_%s" % (pid, var)
 VERIF = "/verif"
 PY = "/venv/bin/python"
